@@ -1,8 +1,10 @@
-"""C14 -- loop-carried dependencies are invariant under rotation of the loop body.   (partial)
-Theorems: Props/C14.v -- the dependency scan is prefix-determined (edges of the doubled kernel are a window of the periodic
-stream's edges) and, for any periodic edge relation, cross-iteration paths of a rotated window correspond one to one to those of
-the unrotated one with equal members and weights; Props/C05.v -- the reported set is the de-duplicated image of ALL such paths.
-The glue between them for lcd_entries is not proved; the property is decided by the exhaustive-rotation metamorphic oracle below."""
+"""C14 -- loop-carried dependencies are invariant under rotation of the loop body.
+Theorems: Props/C14.v -- the scan is prefix-determined; the dependency graph of the doubled rotated kernel is a window of the
+periodic stream's edge relation; the cross-iteration paths, the entries before de-duplication (equal sums, same members) and the
+reported entries of `rotate r k` and of the unrotated kernel correspond (any numeric instance); for exact rationals the reported
+sums and the LCD figure are equal.  Props/C05.v -- the reported set is the de-duplicated image of all such paths.
+X: LCD correspondence (Model/Deps.lcd_entries = implementation) + exhaustive-rotation metamorphic oracle on the implementation.
+Residue (not a theorem): under floats the kept representative of a cycle may add the same weights in a different order."""
 import depcheck
 import deps
 
@@ -14,8 +16,8 @@ FINISH = dict(level="proof",
 def run(ctx):
     depcheck.prepare(ctx, "Props/C14.v")
     ctx.compile_theorems("Props/C05.v")
-    ctx.assumptions += ["rotation invariance is established by exhaustive rotation of each sampled kernel on the implementation (metamorphic), "
-                        "not by a Coq theorem; the Coq part is the characterisation of the LCD set (C05)"]
+    ctx.assumptions += ["rotation = re-numbering the rotated line list 1..n (what OSACA sees for a kernel-only file); the theorem's latency equality "
+                        "is exact for rationals, for floats the summation order of one cycle may differ (compared with 1e-9 by the oracle)"]
     cases = []
     for case, kernel, dg, isa, gl, pipe in depcheck.synthetic(ctx, ctx.n(60, 800), maxlen=9):
         if case["lcd"]:
